@@ -353,11 +353,14 @@ def _classify(R, unit, r, props):
         R.status, R.reason = "error", "loop contracts were dropped: %d loop obligations for %d contracted loops" % (R.loop_obligations, want_loops)
         return
     vac = [f for f in R.failed if f[1].startswith("VACUITY")]
-    if vac:
-        R.status, R.reason = "error", "vacuity guard: %s" % vac[0][1]
-        return
+    R.failed = [f for f in R.failed if not f[1].startswith("VACUITY")]
     prop_fail = [f for f in R.failed if not f[2]]
     aux_fail = [f for f in R.failed if f[2]]
+    # an unreached reachability goal is a vacuity error only when nothing else failed: a change to the code
+    # that breaks a postcondition may legitimately make a goal unreachable as well
+    if vac and not prop_fail and not aux_fail:
+        R.status, R.reason = "error", "vacuity guard: %s" % vac[0][1]
+        return
     if prop_fail:
         R.status = "violation"
         R.reason = "failed obligation(s): " + ", ".join(n for n, _, _ in prop_fail[:6])
